@@ -586,6 +586,7 @@ type siObs struct {
 	Leak    bool
 	Page    int
 	Sets    []rsess
+	Last    int // last Set-Cookie for the session cookie: 0 none, 1 removal, 2 store
 }
 
 func (w *world) observeSignIn(rec *httptest.ResponseRecorder, slug string, f *idp, base time.Time, v int64) siObs {
@@ -608,13 +609,18 @@ func (w *world) observeSignIn(rec *httptest.ResponseRecorder, slug string, f *id
 		if ck.Name != name {
 			continue
 		}
-		if ck.Value == "" {
+		if ck.Value == "" && cookieExpired(ck, time.Now()) {
 			o.Ops = append(o.Ops, "OpClear")
 			o.OpsJSON = append(o.OpsJSON, "clear")
+			o.Last = 1
 			continue
 		}
+		o.Last = 2
 		ss := open(w.cookie, ck.Value)
 		rs := rsess{Email: "<cookie value does not open under the cookie key>"}
+		if ck.Value == "" {
+			rs.Email = "<empty-valued session cookie that is not expired>"
+		}
 		if ss != nil {
 			rs = fromReal(ss, base, v)
 		}
@@ -675,6 +681,7 @@ func (w *world) tab(extra ...string) string {
 }
 
 type siCase struct {
+	Extra    []*http.Cookie `json:"-"` // other cookies the browser's jar holds
 	Slug     string
 	Req      siReq
 	Cookie   cookieIn
@@ -689,6 +696,9 @@ func (w *world) runSignIn(f *idp, sc siCase, v int64) (siObs, time.Time) {
 	req := newReq(sc.Req.Method, sc.Req.target(sc.Slug, base))
 	if val, ok := sc.Cookie.value(w, base, v); ok {
 		req.AddCookie(&http.Cookie{Name: cookieBase + "_" + sc.Slug, Value: val})
+	}
+	for _, ck := range sc.Extra {
+		req.AddCookie(ck)
 	}
 	rec := w.do(req)
 	return w.observeSignIn(rec, sc.Slug, f, base, v), base
@@ -973,10 +983,7 @@ func (w *world) runCallback(f *idp, k cbCase, v int64) (string, string, string, 
 			savedCoq = "(Some " + rs.coq() + ")"
 		}
 	}
-	cleared := false
-	if cv := csrfOf(rec, k.Slug); cv != nil && *cv == "" {
-		cleared = true
-	}
+	cleared := csrfCleared(rec, k.Slug)
 	calls := f.take()
 	obs := fmt.Sprintf("(mkCO %d %s %s %s %s)", rec.Code, c.OptStr(location), savedCoq, c.Bool(cleared), callsCoq(calls))
 	js := map[string]interface{}{"kind": "callback", "rule": map[string]interface{}{"addresses": w.addrs, "domains": w.doms}, "case": k,
@@ -1127,30 +1134,30 @@ func main() {
 	noAccess := rsess{Email: "alice@example.com", Access: "", Rtok: "rt-1", Refresh: 600, Lifetime: 3600}
 	for _, slug := range []string{"google", "okta"} {
 		for _, sc := range []siCase{
-			{slug, okReq, cookieIn{Kind: "cookie", S: fresh}, okRefresh, okValidate},
-			{slug, okReq, cookieIn{Kind: "cookie", S: due}, okRefresh, okValidate},
-			{slug, okReq, cookieIn{Kind: "cookie", S: dueNoTok}, okRefresh, okValidate},
-			{slug, okReq, cookieIn{Kind: "cookie", S: dead}, okRefresh, okValidate},
-			{slug, okReq, cookieIn{Kind: "cookie", S: notAllowed}, okRefresh, okValidate},
-			{slug, okReq, cookieIn{Kind: "cookie", S: noAccess}, okRefresh, okValidate},
-			{slug, okReq, cookieIn{Kind: "none"}, okRefresh, okValidate},
-			{slug, okReq, cookieIn{Kind: "junk", Junk: 1, S: fresh}, okRefresh, okValidate},
-			{slug, okReq, cookieIn{Kind: "code", S: fresh}, okRefresh, okValidate},
-			{slug, okReq, cookieIn{Kind: "other", S: fresh}, okRefresh, okValidate},
-			{slug, okReq, cookieIn{Kind: "cookie", S: fresh}, okRefresh, ans{200, `{"active":false}`}},
-			{slug, okReq, cookieIn{Kind: "cookie", S: fresh}, okRefresh, ans{400, "bad"}},
-			{slug, okReq, cookieIn{Kind: "cookie", S: fresh}, okRefresh, ans{0, ""}},
-			{slug, okReq, cookieIn{Kind: "cookie", S: due}, ans{400, `{"error_description":"Token expired or revoked"}`}, okValidate},
-			{slug, okReq, cookieIn{Kind: "cookie", S: due}, ans{400, `{"error_description":"The token is invalid or expired"}`}, okValidate},
-			{slug, okReq, cookieIn{Kind: "cookie", S: due}, ans{429, ""}, okValidate},
-			{slug, okReq, cookieIn{Kind: "cookie", S: due}, ans{503, ""}, okValidate},
-			{slug, okReq, cookieIn{Kind: "cookie", S: due}, ans{0, ""}, okValidate},
-			{slug, okReq, cookieIn{Kind: "cookie", S: due}, ans{200, "not json"}, okValidate},
-			{slug, siReq{Method: "GET", ClientOK: true, RedirOK: true, SigOK: false, SigKind: 1, State: "s", Redirect: goodRedirects[0]}, cookieIn{Kind: "cookie", S: fresh}, okRefresh, okValidate},
-			{slug, siReq{Method: "GET", ClientOK: true, RedirOK: false, SigOK: true, State: "s", Redirect: badRedirects[0]}, cookieIn{Kind: "cookie", S: fresh}, okRefresh, okValidate},
-			{slug, siReq{Method: "GET", ClientOK: false, RedirOK: true, SigOK: true, State: "s", Redirect: goodRedirects[0]}, cookieIn{Kind: "cookie", S: fresh}, okRefresh, okValidate},
-			{slug, siReq{Method: "POST", ClientOK: true, RedirOK: true, SigOK: true, State: "s", Redirect: goodRedirects[0]}, cookieIn{Kind: "cookie", S: fresh}, okRefresh, okValidate},
-			{slug, siReq{Method: "GET", ClientOK: true, RedirOK: true, SigOK: true, State: "", Redirect: goodRedirects[0]}, cookieIn{Kind: "cookie", S: fresh}, okRefresh, okValidate},
+			{nil, slug, okReq, cookieIn{Kind: "cookie", S: fresh}, okRefresh, okValidate},
+			{nil, slug, okReq, cookieIn{Kind: "cookie", S: due}, okRefresh, okValidate},
+			{nil, slug, okReq, cookieIn{Kind: "cookie", S: dueNoTok}, okRefresh, okValidate},
+			{nil, slug, okReq, cookieIn{Kind: "cookie", S: dead}, okRefresh, okValidate},
+			{nil, slug, okReq, cookieIn{Kind: "cookie", S: notAllowed}, okRefresh, okValidate},
+			{nil, slug, okReq, cookieIn{Kind: "cookie", S: noAccess}, okRefresh, okValidate},
+			{nil, slug, okReq, cookieIn{Kind: "none"}, okRefresh, okValidate},
+			{nil, slug, okReq, cookieIn{Kind: "junk", Junk: 1, S: fresh}, okRefresh, okValidate},
+			{nil, slug, okReq, cookieIn{Kind: "code", S: fresh}, okRefresh, okValidate},
+			{nil, slug, okReq, cookieIn{Kind: "other", S: fresh}, okRefresh, okValidate},
+			{nil, slug, okReq, cookieIn{Kind: "cookie", S: fresh}, okRefresh, ans{200, `{"active":false}`}},
+			{nil, slug, okReq, cookieIn{Kind: "cookie", S: fresh}, okRefresh, ans{400, "bad"}},
+			{nil, slug, okReq, cookieIn{Kind: "cookie", S: fresh}, okRefresh, ans{0, ""}},
+			{nil, slug, okReq, cookieIn{Kind: "cookie", S: due}, ans{400, `{"error_description":"Token expired or revoked"}`}, okValidate},
+			{nil, slug, okReq, cookieIn{Kind: "cookie", S: due}, ans{400, `{"error_description":"The token is invalid or expired"}`}, okValidate},
+			{nil, slug, okReq, cookieIn{Kind: "cookie", S: due}, ans{429, ""}, okValidate},
+			{nil, slug, okReq, cookieIn{Kind: "cookie", S: due}, ans{503, ""}, okValidate},
+			{nil, slug, okReq, cookieIn{Kind: "cookie", S: due}, ans{0, ""}, okValidate},
+			{nil, slug, okReq, cookieIn{Kind: "cookie", S: due}, ans{200, "not json"}, okValidate},
+			{nil, slug, siReq{Method: "GET", ClientOK: true, RedirOK: true, SigOK: false, SigKind: 1, State: "s", Redirect: goodRedirects[0]}, cookieIn{Kind: "cookie", S: fresh}, okRefresh, okValidate},
+			{nil, slug, siReq{Method: "GET", ClientOK: true, RedirOK: false, SigOK: true, State: "s", Redirect: badRedirects[0]}, cookieIn{Kind: "cookie", S: fresh}, okRefresh, okValidate},
+			{nil, slug, siReq{Method: "GET", ClientOK: false, RedirOK: true, SigOK: true, State: "s", Redirect: goodRedirects[0]}, cookieIn{Kind: "cookie", S: fresh}, okRefresh, okValidate},
+			{nil, slug, siReq{Method: "POST", ClientOK: true, RedirOK: true, SigOK: true, State: "s", Redirect: goodRedirects[0]}, cookieIn{Kind: "cookie", S: fresh}, okRefresh, okValidate},
+			{nil, slug, siReq{Method: "GET", ClientOK: true, RedirOK: true, SigOK: true, State: "", Redirect: goodRedirects[0]}, cookieIn{Kind: "cookie", S: fresh}, okRefresh, okValidate},
 		} {
 			cases = append(cases, w0.signInCase(f, sc))
 		}
@@ -1178,8 +1185,13 @@ func main() {
 		cases = append(cases, w0.callbackCase(f, k))
 	}
 
+	for _, script := range browserCorpus {
+		cases = append(cases, w0.browserCase(f, r, 0, script))
+	}
+
 	// ---- generated ----
 	nHist := a.N / 25
+	nBrowser := a.N / 25
 	nCb := a.N / 5
 	nStart := a.N / 20
 	maxLen := 12
@@ -1190,13 +1202,16 @@ func main() {
 	for i := 0; i < nHist; i++ {
 		gen = append(gen, pickW().histCase(f, r, maxLen))
 	}
+	for i := 0; i < nBrowser; i++ {
+		gen = append(gen, pickW().browserCase(f, r, maxLen, nil))
+	}
 	for i := 0; i < nCb; i++ {
 		gen = append(gen, pickW().callbackCase(f, genCbCase(r)))
 	}
 	for i := 0; i < nStart; i++ {
 		gen = append(gen, pickW().startCase(r))
 	}
-	for i := 0; i < a.N-nHist-nCb-nStart; i++ {
+	for i := 0; i < a.N-nHist-nBrowser-nCb-nStart; i++ {
 		gen = append(gen, pickW().signInCase(f, genSiCase(r)))
 	}
 	// spread the expensive kinds (histories, callbacks) evenly over the Coq shards
